@@ -31,10 +31,9 @@ def Clean : Script → Err → Prop
   | [], fin => fin = .eof
   | ev :: rest, fin => (ev.err = none ∧ Clean rest fin) ∨ (rest = [] ∧ ev.err = some fin)
 
-/-- errors `recordErr` (lexer.go:67) keeps: anything but `io.EOF` and `bufio.ErrBufferFull` -/
+/-- errors `recordErr` (lexer.go:67) keeps: anything but `io.EOF` -/
 def reportable : Err → Bool
   | .eof => false
-  | .bufferFull => false
   | _ => true
 
 /-- the first reportable error of a sequence -/
@@ -81,10 +80,12 @@ def PClient.step (op : Op) (c : PClient) : Option Res × PClient :=
   if c.eof then (none, c)
   else
     let r := c.p.step op
-    let c' := { c with p := r.2, err := recordErr c.err r.1.err }
     match op with
-    | .readRune => (some r.1, if r.1.err.isSome then { c' with eof := true } else c')
-    | .peek _ => (some r.1, c')
+    | .readRune =>
+      let c' := { c with p := r.2, err := recordErr c.err r.1.err }
+      (some r.1, if r.1.err.isSome then { c' with eof := true } else c')
+    | .peek n =>
+      (some r.1, { c with p := r.2, err := if n ≤ r.2.cap then recordErr c.err r.1.err else c.err })
 
 /-- the results the client sees (`none` = call skipped because `eof`), and the final state -/
 def PClient.run (ops : List Op) (c : PClient) : List (Option Res) × PClient :=
